@@ -269,6 +269,17 @@ def main(run):
                     run.violation(f"{kind if kind != 'interval' else 'deterministic'}:{b.mech}", f"{kind} capacity {k} targets={tg}: {b}",
                                   {"kind": kind, "k": k, "store_targets": tg, "n": k + 4})
         run.nontriv(("capacity-sweep", kind, sh))
+    # ---- (a9) very large capacities (beyond 10^4 and 2^16): the storage keeps filling up to the capacity it was given
+    for j, (kind, k) in enumerate([("geometric", 12000), ("uniform", 10001), ("interval", 11000), ("geometric", 70000 if thorough else 20000), ("uniform", 120000), ("geometric", 101000)]):
+        if j % nsh != sh % 6 and nsh > 1:
+            continue
+        random.seed(rnd.randrange(2 ** 31))
+        try:
+            run.ok(drive(kind, k, None if kind != "geometric" else 1.0, j % 2 == 1, k + 40, every=k - 1), kind="large-capacity")
+            run.nontriv(("large-capacity", kind, k))
+        except Bad as b:
+            run.ok(kind="large-capacity")
+            run.violation(f"{kind if kind != 'interval' else 'deterministic'}:{b.mech}", f"{kind} capacity {k}: {b}", {"kind": kind, "k": k, "n": k + 40})
     # ---- (b0) streams beyond 2**16 updates on ONE storage object (counter thresholds), content read now and then
     for j, (kind, k, p) in enumerate([("uniform", 4, None), ("geometric", 3, 1.0), ("interval", 5, None), ("uniform", 1, None)]):
         if j % nsh != sh % 4 and nsh > 1:
@@ -305,7 +316,7 @@ def main(run):
     # ---- storages driven THROUGH the explainers (the usual way), with callbacks that fail now and then and a caller that carries
     # on: after every explain_one - successful or failed - the content must be what the update calls seen at the storage's own
     # boundary imply (nothing is taken back, dropped or added behind the storage's update interface)
-    explainer_driven(run, rnd, 40 if not thorough else 160)
+    explainer_driven(run, rnd, 56 if not thorough else 210)
 
 
 def explainer_driven(run, rnd, n_cfg):
@@ -314,7 +325,7 @@ def explainer_driven(run, rnd, n_cfg):
     from .c17 import BatchScenario
     for c in range(n_cfg):
         seed = rnd.randrange(2 ** 31)
-        which = ["sage", "pfi", "interval", "interval", "batch"][c % 5]
+        which = ["sage", "pfi", "interval", "interval", "batch", "batch-uniform", "batch-geometric"][c % 7]
         try:
             if which in ("sage", "pfi"):
                 cfg = gen_cfg(rnd, which, exact=True)
@@ -327,10 +338,10 @@ def explainer_driven(run, rnd, n_cfg):
                 cap = spec[1] if kind in ("uniform", "geometric", "interval") else (1 if kind == "sequence" else 10 ** 9)
                 steps = cfg["steps"]
             else:
-                sc = BatchScenario(which, seed, rnd)
-                kind, tg = ("interval" if which == "interval" else "batch"), True
+                sc = BatchScenario(which.split("-")[0], seed, rnd, reservoir=(which.split("-")[1] if "-" in which else None))
+                kind, tg = ("interval" if which == "interval" else which.split("-")[1] if "-" in which else "batch"), True
                 cap = sc.capacity
-                steps = 12 if which == "batch" else 3 * cap + 4
+                steps = 12 if which.startswith("batch") else 3 * cap + 4
         except Exception as ex:
             run.other_error(f"C15:construct:{type(ex).__name__}")
             continue
